@@ -39,7 +39,14 @@ func zzSetup() *zzMut {
 	if !d.Accept() {
 		zz.Stop()
 	}
-	t := zzTodayDates[zz.Choose(len(zzTodayDates))]
+	// nd limits the candidate dates (2: first record's date and a date before all records)
+	cands := zzTodayDates
+	if zz.Param("nd") == 2 {
+		cands = [][3]int{{2020, 1, 1}, {2019, 6, 6}}
+	} else if zz.Param("nd") == 3 {
+		cands = [][3]int{{2020, 1, 1}, {2020, 1, 2}, {2020, 6, 6}}
+	}
+	t := cands[zz.Choose(len(cands))]
 	now := gotime.Date(t[0], gotime.Month(t[1]), t[2], 12, 0, 0, 0, gotime.UTC)
 	m := &zzMut{doc: d, before: d.Text(), model: d.Model(), eol: d.EOL(), today: zzIso(t[0], t[1], t[2]), target: -1}
 	m.ctx = newZZContext(m.before, now)
@@ -238,6 +245,12 @@ func ZZ_Mut_Track() {
 
 // zzSymTime24 returns an arbitrary explicit --time value (24-hour, unshifted) and its offset.
 func zzSymTime24() (klog.Time, int) {
+	if zz.Param("L") >= 3 {
+		// larger files: the time is a path choice (before / after every generated start time)
+		h := []int{7, 23}[zz.Choose(2)]
+		t, _ := klog.NewTime(h, 30)
+		return t, h*60 + 30
+	}
 	h := zz.IntRange("th", 0, 23)
 	mm := []int{5, 50}[zz.Choose(2)] // (every minute value is covered by C16/C17; here the hour carries the order relation)
 	t, _ := klog.NewTime(h, mm)
@@ -314,6 +327,19 @@ func ZZ_Mut_Start() {
 // ZZ_Mut_Stop: `klog stop --time T [--summary S]`; `switch` when Param sw == 1.
 func ZZ_Mut_Stop() {
 	m := zzSetup()
+	if zz.Param("needOpen") == 1 {
+		// larger files: only those where today's record holds an open range (the
+		// failing cases do not depend on the file's size and are covered at L=2)
+		has := false
+		if m.target >= 0 {
+			for _, e := range m.model[m.target].Entries {
+				has = has || e.Kind == 3
+			}
+		}
+		if !has {
+			zz.Stop()
+		}
+	}
 	t, off := zzSymTime24()
 	isSwitch := zz.Param("sw") == 1
 	var sum klog.EntrySummary
@@ -550,4 +576,174 @@ func ZZ_Mut_Pause() {
 		at, added := zzOnlyInsertion(m.before, m.ctx.fileText)
 		zz.Assert(len(added) == 1 && at == m.model[rIdx].LastLine+1, "pause-entry-inserted-after-the-records-last-line")
 	}
+}
+
+// ZZ_Mut_InvalidTarget (C05): any mutating command on a file that does not parse
+// fails and leaves the bytes untouched; a multi-step command whose second step
+// fails writes nothing.
+func ZZ_Mut_InvalidTarget() {
+	d := parser.ZZGenDoc(zz.Param("L"), true)
+	now := gotime.Date(2020, 1, 1, 12, 0, 0, 0, gotime.UTC)
+	ctx := newZZContext(d.Text(), now)
+	t, _ := klog.NewTime(13, 0)
+	var err app.Error
+	switch zz.Choose(5) {
+	case 0:
+		err = (&Track{Entry: klog.EntrySummary{"1h"}}).Run(ctx)
+	case 1:
+		c := &Start{}
+		c.Time = t
+		err = c.Run(ctx)
+	case 2:
+		c := &Stop{}
+		c.Time = t
+		err = c.Run(ctx)
+	case 3:
+		err = (&Create{}).Run(ctx)
+	case 4:
+		// switch: step 1 (close) may succeed, step 2 fails (no such entry to resume)
+		c := &Switch{}
+		c.Time = t
+		c.ResumeNth = 7
+		err = c.Run(ctx)
+		zz.Assert(err != nil, "switch-with-failing-second-step-fails")
+	}
+	if !d.Accept() {
+		zz.Assert(err != nil, "command-on-invalid-file-fails")
+	}
+	if err != nil {
+		zz.Assert(ctx.writes == 0 && ctx.fileText == d.Text(), "failed-command-leaves-file-untouched")
+		zz.Assert(err.Code() != 0, "failure-has-nonzero-exit-code")
+	} else {
+		zzParseOK(ctx.fileText)
+	}
+}
+
+// ZZ_Mut_History (C04): sequences of commands on today's record; the file written
+// by one command is the input of the next; after every step the file denotes the model.
+func ZZ_Mut_History() {
+	m := zzSetup()
+	steps := zz.Param("steps")
+	model := append([]parser.ZZRec{}, m.model...)
+	idx := m.target
+	for s := 0; s < steps; s++ {
+		before := m.ctx.fileText
+		writes := m.ctx.writes
+		hasOpen, openIdx, openStart := false, -1, 0
+		if idx >= 0 {
+			for i, e := range model[idx].Entries {
+				if e.Kind == 3 {
+					hasOpen, openIdx, openStart = true, i, e.A
+				}
+			}
+		}
+		var err app.Error
+		expectOK := true
+		var apply func()
+		addEntry := func(e parser.ZZEntry) {
+			if idx >= 0 {
+				r := model[idx]
+				r.Entries = append(append([]parser.ZZEntry{}, r.Entries...), e)
+				model[idx] = r
+			} else {
+				model = zzInsertRecord(model, m.pos, parser.ZZRec{Date: m.today, Entries: []parser.ZZEntry{e}})
+				idx = m.pos
+			}
+		}
+		switch zz.Choose(3) {
+		case 0:
+			err = (&Track{Entry: klog.EntrySummary{"2h tracked"}}).Run(m.ctx)
+			apply = func() { addEntry(parser.ZZEntry{Kind: 1, A: 120, Summary: []string{"tracked"}}) }
+		case 1:
+			h := 13 + s
+			t, _ := klog.NewTime(h, 0)
+			c := &Start{}
+			c.Time = t
+			err = c.Run(m.ctx)
+			expectOK = !hasOpen
+			apply = func() { addEntry(parser.ZZEntry{Kind: 3, A: h * 60, Summary: []string{""}}) }
+		case 2:
+			h := zz.IntRange("stopH", 0, 23)
+			t, _ := klog.NewTime(h, 30)
+			c := &Stop{}
+			c.Time = t
+			err = c.Run(m.ctx)
+			okc := zz.And(hasOpen, h*60+30 >= openStart)
+			if okc {
+				expectOK = true
+			} else {
+				expectOK = false
+			}
+			apply = func() {
+				r := model[idx]
+				es := append([]parser.ZZEntry{}, r.Entries...)
+				es[openIdx] = parser.ZZEntry{Kind: 2, A: es[openIdx].A, B: h*60 + 30, Summary: es[openIdx].Summary}
+				r.Entries = es
+				model[idx] = r
+			}
+		}
+		zz.Assert((err == nil) == expectOK, "command-succeeds-iff-model-accepts")
+		if err != nil {
+			zz.Assert(m.ctx.writes == writes && m.ctx.fileText == before, "failed-command-leaves-file-untouched")
+			continue
+		}
+		apply()
+		parser.ZZCheckModel(zzParseOK(m.ctx.fileText), model)
+	}
+}
+
+// ZZ_C11_Election: a new record is added to a file whose records disagree (or
+// agree) on indentation and line ending; the result must be deterministic, and
+// the unanimous style must be used when there is one.
+func ZZ_C11_Election() {
+	inds := []string{"    ", "  ", "\t"}
+	eols := []string{"\n", "\r\n"}
+	n := 2 + zz.Choose(2)
+	file := ""
+	var usedInd []string
+	var usedEol []string
+	for i := 0; i < n; i++ {
+		ind := inds[zz.Choose(len(inds))]
+		eol := eols[zz.Choose(len(eols))]
+		usedInd, usedEol = append(usedInd, ind), append(usedEol, eol)
+		if i > 0 {
+			file += eol
+		}
+		file += zzIso(2020, 1, 1+i) + eol + ind + "1h" + eol
+	}
+	now := gotime.Date(2020, 6, 6, 12, 0, 0, 0, gotime.UTC)
+	run := func(ctx *zzContext) app.Error { return (&Track{Entry: klog.EntrySummary{"2h"}}).Run(ctx) }
+	ctx := newZZContext(file, now)
+	err := run(ctx)
+	zz.Assert(err == nil, "track-on-new-date-succeeds")
+	if err != nil {
+		return
+	}
+	zzParseOK(ctx.fileText)
+	_, added := zzOnlyInsertion(file, ctx.fileText)
+	same := func(xs []string) bool {
+		for _, x := range xs {
+			if x != xs[0] {
+				return false
+			}
+		}
+		return true
+	}
+	for _, l := range added {
+		if zzStrip(l) == "" || zzStrip(l) == "2020-06-06" {
+			continue
+		}
+		if same(usedInd) {
+			zz.Assert(len(l) > len(usedInd[0]) && l[:len(usedInd[0])] == usedInd[0], "unanimous-indentation-is-used")
+		}
+		if same(usedEol) {
+			zz.Assert(zzEnding(l) == usedEol[0], "unanimous-line-ending-is-used")
+		}
+	}
+	// determinism under every iteration order of the vote maps
+	zz.MapOrderNondet(true)
+	ctx2 := newZZContext(file, now)
+	err2 := run(ctx2)
+	zz.MapOrderNondet(false)
+	zz.Assert(err2 == nil && ctx2.fileText == ctx.fileText, "repeat-yields-identical-bytes")
 }
